@@ -165,11 +165,11 @@ Sllbi_Call(s, c) ==
     [] c.o = "set_initiator_value" -> [s EXCEPT !.inits[c.a.idx + 1] = c.a.v]
     [] c.o = "set_target_value" -> [s EXCEPT !.tgts[c.a.idx + 1] = c.a.v]
     [] c.o = "set_entry_value" -> [s EXCEPT !.cells[<<c.a.i, c.a.j>>] = c.a.v]
-SllbiMatrix(s) == Flat([k \in 1..(s.ni * s.nt) |-> s.cells[<<(k - 1) \div s.nt, (k - 1) % s.nt>>]])
+SllbiMatrix(s) == FlatW([k \in 1..(s.ni * s.nt) |-> s.cells[<<(k - 1) \div s.nt, (k - 1) % s.nt>>]], 2)
 Sllbi_Lay(s) == <<K(<<1, 0>>), K(Z(2)), N("length", LE(32 + 4 * s.ni + 4 * s.nt + 2 * s.ni * s.nt, 4)),
                   N("flags", <<s.hier + Val(BitsLE(s.flags, 1))>>), N("dtype", <<s.dtype>>), N("mts", <<s.mts>>), K(Z(1)),
                   N("ni", LE(s.ni, 4)), N("nt", LE(s.nt, 4)), K(Z(4)), N("base_unit", s.base_unit),
-                  N("inits", Flat(s.inits)), N("tgts", Flat(s.tgts)), N("matrix", SllbiMatrix(s))>>
+                  N("inits", FlatW(s.inits, 4)), N("tgts", FlatW(s.tgts, 4)), N("matrix", SllbiMatrix(s))>>
 
 LevelCode == [None |-> 0, One |-> 1, Two |-> 2, Three |-> 3]
 AssocCode == [None |-> 0, DirectMapped |-> 1, Complex |-> 2]
@@ -180,7 +180,7 @@ Msci_Init(a) == [pxm |-> a.pxm, size |-> a.size,
 Msci_Call(s, c) == [s EXCEPT !.handles = Append(@, c.a.v)]       \* add_smbios_handle
 Msci_Lay(s) == <<K(<<2, 0>>), K(Z(2)), N("length", LE(32 + 2 * Len(s.handles), 4)), N("pxm", s.pxm), K(Z(4)),
                  N("size", s.size), N("attrs", s.attr01 \o s.line), K(Z(2)), N("nhandles", LE(Len(s.handles), 2)),
-                 N("handles", Flat(s.handles))>>
+                 N("handles", FlatW(s.handles, 2))>>
 
 ---------------------------------------------------------------------------
 (* PPTT nodes (ACPI 5.2.30); R = handle values returned by earlier adds    *)
@@ -191,7 +191,7 @@ Proc_Call(s, c, R) ==
     [] OTHER -> [s EXCEPT !.flags = @ \cup (CASE c.o = "physical" -> {0} [] c.o = "valid" -> {1} [] c.o = "thread" -> {2}
                                               [] c.o = "leaf" -> {3} [] c.o = "identical" -> {4})]
 Proc_Lay(s) == <<K(<<0>>), N("length", <<20 + 4 * Len(s.res)>>), K(Z(2)), N("flags", BitsLE(s.flags, 4)),
-                 N("parent", s.parent), N("id", s.id), N("nres", LE(Len(s.res), 4)), N("res", Flat(s.res))>>
+                 N("parent", s.parent), N("id", s.id), N("nres", LE(Len(s.res), 4)), N("res", FlatW(s.res, 4))>>
 
 \* cache attributes: allocation type bits 1:0 (0 read, 1 write, 2 read+write), cache type bits 3:2 (0 data,
 \* 1 instruction, 2 unified), write policy bit 4 (0 write-back, 1 write-through); the attribute byte is the
@@ -228,7 +228,7 @@ Mmu_Lay(s) == <<K(<<2, 0>>), K(<<8, 0>>), K(<<1, 0>>), K(Z(1)), N("scheme", s.sc
 Hart_Init(a, R) == [uid |-> a.uid, offs |-> <<Ref(R, a.isa)>>]
 Hart_Call(s, c, R) == [s EXCEPT !.offs = Append(@, Ref(R, c.a.ref))]          \* with_cmo
 Hart_Lay(s) == <<K(<<255, 255>>), N("length", LE(12 + 4 * Len(s.offs), 2)), K(<<1, 0>>), N("noffs", LE(Len(s.offs), 2)),
-                 N("uid", s.uid), N("offs", Flat(s.offs))>>
+                 N("uid", s.uid), N("offs", FlatW(s.offs, 4))>>
 
 ---------------------------------------------------------------------------
 (* RIMT devices (layout pinned by the crate's golden vectors, DESIGN 5/C04) *)
@@ -244,16 +244,16 @@ Iommu_Init(a) == [id |-> a.id, base |-> IF "base" \in DOMAIN a THEN a.base ELSE 
 Iommu_Lay(s) == <<K(<<0, 1>>), N("length", LE(32 + 8 * Len(s.wires), 2)), N("id", s.id), K(Z(2)), N("base", s.base),
                   N("flags", BitsLE(s.flags, 4)), N("seg", s.seg), N("bdf", s.bdf), N("pxm", s.pxm),
                   N("nwires", LE(Len(s.wires), 2)), N("wire_off", <<32, 0>>),
-                  N("wires", Flat([i \in 1..Len(s.wires) |-> WireBytes(s.wires[i])]))>>
+                  N("wires", FlatW([i \in 1..Len(s.wires) |-> WireBytes(s.wires[i])], 8))>>
 Rc_Init(a, R) == [id |-> a.id, seg |-> a.seg, flags |-> (IF a.ats THEN {0} ELSE {}) \cup (IF a.pri THEN {1} ELSE {}),
                   maps |-> OptList(a, "maps"), R |-> R]
 Rc_Lay(s) == <<K(<<1, 1>>), N("length", LE(16 + 20 * Len(s.maps), 2)), N("id", s.id), N("seg", s.seg),
                N("flags", BitsLE(s.flags, 4)), N("map_off", <<16, 0>>), N("nmaps", LE(Len(s.maps), 2)),
-               N("maps", Flat([i \in 1..Len(s.maps) |-> IdMapBytes(s.maps[i], s.R)]))>>
+               N("maps", FlatW([i \in 1..Len(s.maps) |-> IdMapBytes(s.maps[i], s.R)], 20))>>
 Plat_Init(a, R) == [id |-> a.id, name |-> a.name, maps |-> OptList(a, "maps"), R |-> R]
 Plat_Lay(s) == <<K(<<2, 1>>), N("length", LE(12 + Len(s.name) + 1 + 20 * Len(s.maps), 2)), N("id", s.id), K(Z(2)),
                  N("map_off", LE(12 + Len(s.name) + 1, 2)), N("nmaps", LE(Len(s.maps), 2)), N("name", s.name), K(Z(1)),
-                 N("maps", Flat([i \in 1..Len(s.maps) |-> IdMapBytes(s.maps[i], s.R)]))>>
+                 N("maps", FlatW([i \in 1..Len(s.maps) |-> IdMapBytes(s.maps[i], s.R)], 20))>>
 
 ---------------------------------------------------------------------------
 (* VIOT nodes (ACPI 5.2.32).  PCI range: endpoint start pinned to the first BDF (producer's choice) *)
@@ -292,11 +292,11 @@ Cfmws_Call(s, c) ==
                                               [] c.o = "fixed_configuration" -> {4})]
 Cfmws_Lay(s) == <<K(<<1, 0>>), N("length", LE(36 + 4 * Len(s.targets), 2)), K(Z(4)), N("base", s.base), N("size", s.size),
                   N("eniw", <<WaysCode[s.ways]>>), N("arith", <<s.arith>>), K(Z(2)), N("hbig", LE(s.gran, 4)),
-                  N("restr", BitsLE(s.restr, 2)), N("qtg", s.qtg), N("targets", Flat(s.targets))>>
+                  N("restr", BitsLE(s.restr, 2)), N("qtg", s.qtg), N("targets", FlatW(s.targets, 4))>>
 Cxims_Init(a) == [gran |-> GranCode[a.gran], maps |-> <<>>]
 Cxims_Call(s, c) == [s EXCEPT !.maps = Append(@, c.a.v)]       \* add_xormap
 Cxims_Lay(s) == <<K(<<2, 0>>), N("length", LE(8 + 8 * Len(s.maps), 2)), K(Z(2)), N("hbig", <<s.gran>>),
-                  N("nib", <<Len(s.maps) % 256>>), N("maps", Flat(s.maps))>>
+                  N("nib", <<Len(s.maps) % 256>>), N("maps", FlatW(s.maps, 8))>>
 ProtoCode == [CxlIo |-> 0, CxlMem |-> 1]
 \* RDPAS: type, reserved, record length, RCEC segment, RCEC BDF, protocol type (1), base address (8): 17 bytes of fields
 Rdpas_Init(a) == [seg |-> a.seg, pci |-> a, proto |-> ProtoCode[a.proto], base |-> a.base]
